@@ -92,6 +92,7 @@ fn main() {
         #[cfg(feature = "real")]
         "C14" => check::c14::run(&ctx),
         "C15" => check::c15::run(&ctx),
+        "C17" => check::c17::run(&ctx),
         "C12" => check::hon::run_c12(&ctx),
         "C20" => check::c20::run(&ctx),
         "C13" => check::hon::run_c13(&ctx),
